@@ -64,6 +64,9 @@ CONTRACTS = {
     "is_zero": ("res: bool", "true", "res == (self.0@ == 0)"),
 }
 PROOFS = {  # proof lines inserted at the top of the body
+    "checked_shl": "if *other >= 256 { if *other > 256 { lemma_pow2_strictly_increases(256, *other as nat); } lemma_pow2_pos(*other as nat); "
+                   "if self.0@ != 0 { assert(self.0@ * pow2(*other as nat) >= pow2(*other as nat)) by (nonlinear_arith) requires self.0@ >= 1, pow2(*other as nat) > 0; } "
+                   "else { assert(self.0@ * pow2(*other as nat) == 0) by (nonlinear_arith) requires self.0@ == 0; } }",
     "checked_div": "if other.0@ != 0 { assert(self.0@ / other.0@ <= self.0@) by (nonlinear_arith) requires other.0@ > 0; }",
     "checked_rem": "if other.0@ != 0 { assert(self.0@ % other.0@ < other.0@) by (nonlinear_arith) requires other.0@ > 0; }",
     "shr": "lemma_pow2_pos(*other as nat); assert(self.0@ / pow2(*other as nat) <= self.0@) by (nonlinear_arith) requires pow2(*other as nat) > 0;",
@@ -292,7 +295,7 @@ pub fn %s(%s: &U256, %s: &U256) -> (res: bool)
         "num_bigint::BigUint axiomatised as a type isomorphic to nat: add, sub (requires a>=b), mul, div/rem (requires b!=0), shl/shr by &u64 as * and / by 2^n, bits()<=256 <=> value<2^256, is_zero, PartialEq, PartialOrd, ZERO",
         "bitand/bitor/bitxor on naturals are uninterpreted functions that stay below 2^256 on 256-bit inputs; the VM's WQOP and/or/xor are taken to be the same functions",
         "contract of `impl Not for &U256` assumed (body outside Verus's subset); U256::to_be_bytes/from_be_bytes not verified",
-        "machine resources unbounded: BigUint << n for huge n allocates without limit in reality (checked_shl tests the width only afterwards)",
+        "resource model: BigUint << n with n > 2^16 on a non-zero value is a precondition violation (allocation of n/8 bytes); all other BigUint operations are treated as resource-free",
         "wide-int VM oracle (wq_*) transcribed from fuel-vm 0.66.4 interpreter/alu/wideint.rs",
         "operands reaching the arms satisfy wf (value < 2^256): established by literal parsing and by every checked operation's own postcondition",
     ]
